@@ -451,7 +451,8 @@ class TimestampingFileWriterSession(BaseFileWriterSession):
 
         _logger.debug('Checking for last modified={0}.', modified_time)
 
-        if modified_time:
+        if modified_time and hasattr(request, 'fields'):
+            # (Only HTTP requests have header fields; FTP requests do not.)
             date_str = email.utils.formatdate(modified_time)
 
             request.fields['If-Modified-Since'] = date_str
